@@ -9,6 +9,7 @@ import (
 	"os"
 	"path/filepath"
 	"runtime"
+	"runtime/pprof"
 	"sort"
 	"strconv"
 	"strings"
@@ -25,6 +26,8 @@ type Finding struct {
 	Commit     string `json:"commit,omitempty"`
 }
 
+var exit = os.Exit
+
 func usage() {
 	fmt.Fprintln(os.Stderr, "usage: govc check <Cxx> [--tier quick|thorough] [--repo DIR] | govc list | govc func <key> [-v]")
 	os.Exit(2)
@@ -35,6 +38,12 @@ func main() {
 		usage()
 	}
 	cmd := os.Args[1]
+	if pp := os.Getenv("GOVC_PPROF"); pp != "" {
+		f, _ := os.Create(pp)
+		pprof.StartCPUProfile(f)
+		defer pprof.StopCPUProfile()
+		exit = func(c int) { pprof.StopCPUProfile(); os.Exit(c) }
+	}
 	fs := flag.NewFlagSet(cmd, flag.ExitOnError)
 	tier := fs.String("tier", "quick", "quick|thorough")
 	repo := fs.String("repo", "/repo", "repository root")
@@ -71,7 +80,7 @@ func main() {
 		if len(rest) != 1 {
 			usage()
 		}
-		os.Exit(runCheck(eng, rest[0], *tier, *verbose, *noReplay))
+		exit(runCheck(eng, rest[0], *tier, *verbose, *noReplay))
 	case "list":
 		eng.loadContracts()
 		byProp := map[string][]string{}
@@ -100,7 +109,7 @@ func main() {
 		if len(rest) != 1 {
 			usage()
 		}
-		os.Exit(runFunc(eng, rest[0], *tier, *verbose))
+		exit(runFunc(eng, rest[0], *tier, *verbose))
 	default:
 		usage()
 	}
